@@ -1245,3 +1245,273 @@ def check_C17(rep, scr, tier, seed):
                       % (ud.unidata_version, 'all' if tier == 'thorough' else 'every 23rd', 'all' if tier == 'thorough' else 'sample'),
                       'make -C /verif/coq Properties_C17.vo + harness/check.py C17')
 REGISTRY['C17'] = check_C17
+
+# ------------------------------------------------------------------------------------------------ C11
+import decimal
+class Dir:
+    """one conversion directive + the arguments it consumes"""
+    def __init__(self, flags, width, prec, length, conv, args, kinds):
+        self.flags = flags; self.width = width; self.prec = prec; self.length = length; self.conv = conv; self.args = args; self.kinds = kinds
+    def text(self):
+        w = '' if self.width is None else ('*' if self.width == '*' else str(self.width))
+        p = '' if self.prec is None else ('.' + ('' if self.prec == '' else ('*' if self.prec == '*' else str(self.prec))))
+        return '%' + self.flags + w + p + self.length + self.conv
+def c11_int_values(length, rng):
+    base = {'hh': [0, 1, -1, 127, -128, 255, 65, 300, -129], 'h': [0, -1, 32767, -32768, 65535, 70000, 9],
+            '': [0, 1, -1, 9, 10, 99, 100, 255, 256, 4660, 2**31 - 1, -2**31, 2**32 - 1, -2**31 + 1, 123456789],
+            'l': [0, -1, 1, 2**63 - 1, -2**63, 2**64 - 1, 10**18, 2**32, -2**32, 255]}
+    base['ll'] = base['z'] = base['j'] = base['t'] = base['l']
+    return base[length]
+def c11_gen_dir(rng, classes, boundary=False):
+    cls = rng.choice(classes)
+    flags = ''.join(f for f in '-+ #0' if rng.random() < 0.22)
+    wopts = [None, None, 1, 3, 6, 12, '*'] + ([31, 32, 33, 40] if boundary else [])
+    popts = [None, None, '', 0, 1, 3, 6, 12, '*'] + ([31, 32, 33, 40] if boundary else [])
+    width = rng.choice(wopts); prec = rng.choice(popts)
+    args = []; kinds = []
+    if width == '*': args.append(rng.choice([0, 1, 5, 9, -7, -1])); kinds.append('i')
+    if prec == '*': args.append(rng.choice([0, 1, 4, 9, -1])); kinds.append('i')
+    if cls == 'int':
+        conv = rng.choice('ddiuxXo'); length = rng.choice(['', '', '', 'hh', 'h', 'l', 'll', 'z', 'j', 't'])
+        if length == 'z' and conv in 'di': pass
+        args.append(rng.choice(c11_int_values(length, rng))); kinds.append('i')
+    elif cls == 'char':
+        conv = 'c'; length = ''; prec = None; flags = flags.replace('#', '').replace('0', '').replace('+', '').replace(' ', '')
+        args = args[:1] if width == '*' else []; kinds = kinds[:len(args)]
+        args.append(rng.choice([65, 97, 48, 126, 200, 255, 1, 256 + 66])); kinds.append('i')
+    elif cls == 'str':
+        conv = 's'; length = ''; flags = flags.replace('#', '').replace('0', '').replace('+', '').replace(' ', '')
+        args.append(rng.choice([b'', b'a', b'hello', b'x' * 40, 'héllo €'.encode(), b'abc def', b'%d'])); kinds.append('s')
+    elif cls == 'pct':
+        return Dir('', None, None, '', '%', [], [])
+    elif cls == 'float':
+        return rng.choice(C11_FLOAT_GRID)
+    elif cls == 'wide':
+        conv = rng.choice('cs'); length = 'l'; flags = flags.replace('#', '').replace('0', '').replace('+', '').replace(' ', '')
+        if conv == 'c': prec = None; args = args[:1] if width == '*' else []; kinds = kinds[:len(args)]; args.append(rng.choice([65, 0xe9, 0x20ac, 0x10348])); kinds.append('i')
+        else: args.append(('W', rng.choice([[], [0x61], [0x68, 0xe9, 0x20ac], [0x61] * 20]))); kinds.append('w')
+    return Dir(flags, width, prec, length, conv, args, kinds)
+
+C11_FLOAT_VALUES = [0.0, -0.0, 1.0, -1.0, 0.5, 2.5, 0.999, 0.9999996, -3.96, 123.456, 1e-5, 123456789.0, 999999999.9, 1e9, 1.5e9, 1e300, 5e-324,
+                    float('inf'), float('-inf'), float('nan'), 3.141592653589793, 99.99, 1.9999996, 1e6, 999999.5, 0.1]
+def c11_float_grid():
+    g = []
+    for conv in 'fFeEgG':
+        for length in ('', 'L'):
+            for flags in ('', '-', '+', ' ', '#', '0', '-+', '+0'):
+                for width in (None, 12):
+                    for prec in (None, 0, 3, 12):
+                        for v in C11_FLOAT_VALUES:
+                            g.append(Dir(flags, width, prec, length, conv, [('L', v) if length == 'L' else ('D', v)], ['f']))
+    return g
+C11_FLOAT_GRID = c11_float_grid()
+def c11_float_key(d):
+    v = d.args[-1][1]
+    return '%s\t%s' % (d.text(), 'nan' if v != v else v.hex())
+def c11_load_float_table():
+    t = {}
+    p = vlib.VERIF + '/known_float_cases.tsv'
+    if os.path.exists(p):
+        for l in open(p):
+            f = l.rstrip('\n').split('\t')
+            if len(f) >= 3: t[f[0] + '\t' + f[1]] = f[2]
+    return t
+
+def c11_formats(seed, tier):
+    import random
+    rng = random.Random(seed); out = []
+    n = 1 if tier == 'quick' else 6
+    # single directives, each class
+    for _ in range(2500 * n): out.append(('single-int', [c11_gen_dir(rng, ['int'])]))
+    for _ in range(500 * n): out.append(('single-int-boundary', [c11_gen_dir(rng, ['int'], True)]))
+    for _ in range(300 * n): out.append(('single-str', [c11_gen_dir(rng, ['str', 'char'])]))
+    for d in C11_FLOAT_GRID: out.append(('grid-float', [d]))
+    for _ in range(120 * n): out.append(('single-wide', [c11_gen_dir(rng, ['wide'])]))
+    # 0..4 directives with literal text
+    lits = ['', '', ' ', 'x', ': ', 'abc', '/', '%%', 'v=', 'é']
+    for _ in range(1500 * n):
+        k = rng.randrange(0, 5); ds = []
+        for j in range(k): ds.append(c11_gen_dir(rng, ['int', 'int', 'str', 'char', 'float', 'pct']))
+        out.append(('multi-%d' % k, ds))
+    res = []
+    for cls, ds in out:
+        parts = []
+        for d in ds:
+            parts.append(rng.choice(lits)); parts.append(d.text())
+        parts.append(rng.choice(lits))
+        if cls == 'grid-float' or (cls.startswith('single') and rng.random() < 0.7): parts = [ds[0].text()]
+        fmt = ''.join(parts).encode()
+        args = [a for d in ds for a in d.args]
+        res.append((cls, fmt, args, ds))
+    # invalid arguments / directives
+    inv = [(b'%s', [None]), (b'a%sb', [None]), (b'%d %s', [5, None]), (b'%n', [0]), (b'ab%n', [0]), (b'%%%n', [0]), (b'%d%n', [1, 0]), (b'%q', [1]), (b'%', []), (b'abc%', []), (b'%5', []), (b'%Ld', [1]), (b'%y', [1]), (b'%hn', [0]), (b'%ln', [0])]
+    for fmt, args in inv: res.append(('invalid', fmt, args, []))
+    return res
+
+def c11_case(i, func, fmt, args, dmax, rng, extra_blocks=None):
+    blocks = [('R', fam_copy.garbage(rng, dmax)), ('R', fmt + b'\0')]; cargs = []
+    for a in args:
+        if a is None: cargs.append(None)
+        elif isinstance(a, bytes): blocks.append(('R', a + b'\0')); cargs.append((len(blocks) - 1, 0))
+        elif isinstance(a, tuple) and a[0] == 'W': blocks.append(('R', fam_copy.enc(a[1] + [0], 4))); cargs.append((len(blocks) - 1, 0))
+        elif isinstance(a, tuple) and a[0] == 'D': cargs.append('F%016x' % struct.unpack('<Q', struct.pack('<d', a[1]))[0])
+        elif isinstance(a, tuple) and a[0] == 'L':
+            v = a[1]; cargs.append('G' + ('nan' if v != v else ('inf' if v == float('inf') else ('-inf' if v == float('-inf') else v.hex()))))
+        else: cargs.append(a)
+    if func == 'x:libc_snprintf': full = [(0, 0), dmax, (1, 0), 'V'] + cargs
+    elif func in ('x:fprintf_s', 'x:vfprintf_s', 'x:printf_s', 'x:vprintf_s'): full = [(1, 0), 'V'] + cargs
+    else: full = [(0, 0), dmax, UNK, (1, 0), 'V'] + cargs
+    return vlib.Case('f%s' % i, func, blocks, full, {})
+
+def c11_model_line(cid, func, slack, rmax, init, fmt, args):
+    toks = []
+    for a in args:
+        if a is None: toks.append('N')
+        elif isinstance(a, bytes): toks.append('S' + (a.hex() if a else '-'))
+        elif isinstance(a, tuple): toks.append('S-')     # outside the model (the engine answers FUnmodelled before using it)
+        else: toks.append('I%d' % a)
+    return '%s %s %d %d %s %s %s' % (cid, func, 1 if slack else 0, rmax, init.hex() if init else '-', fmt.hex() if fmt else '-', ' '.join(toks))
+
+def c11_float_ok(d, got, want):
+    """a rendering in the requested layout within one unit of the last printed digit (got/want: bytes of this directive only are not separable: compare whole text shapes)"""
+    import re
+    g = got.decode('latin1'); w = want.decode('latin1')
+    num = re.compile(r'[-+ ]?(?:\d+\.?\d*(?:[eE][-+]?\d+)?|inf|nan|INF|NAN)')
+    gp = num.findall(g); wp = num.findall(w)
+    if num.sub('#', g) != num.sub('#', w) or len(gp) != len(wp): return False
+    for a, b in zip(gp, wp):
+        if a == b: continue
+        if len(a) != len(b): return False
+        try:
+            da = decimal.Decimal(a.strip()); db = decimal.Decimal(b.strip())
+        except Exception: return False
+        if da.is_nan() or db.is_nan() or da.is_infinite() or db.is_infinite(): return False
+        ea = da.as_tuple().exponent; 
+        if ea != db.as_tuple().exponent: return False
+        if abs(da - db) > decimal.Decimal(1).scaleb(ea): return False
+    return True
+
+def check_C11(rep, scr, tier, seed):
+    import random
+    rng = random.Random(seed)
+    impls, constsd, md = setup(rep, scr, ['O1', 'noslack'])
+    pr = proofs(rep, scr, 'C11')
+    formats = c11_formats(seed, tier)
+    # phase 1: the C library's own rendering of every format (the reference)
+    refcases = [c11_case(i, 'x:libc_snprintf', fmt, args, 4096, rng) for i, (cls, fmt, args, ds) in enumerate(formats)]
+    cf = '%s/cases_c11ref.txt' % scr.dir
+    with open(cf, 'w') as f:
+        for c in refcases: f.write(c.line() + '\n')
+    oref = vlib.run_impl(impls['O1'], cf, refcases, locale='C.UTF-8')
+    ref = {}
+    for i, c in enumerate(refcases):
+        a = oref.get(c.id)
+        if a is None or a.fault != '-': continue
+        r = int(a.ret)
+        if formats[i][0] == 'invalid' or r < 0: ref[i] = None
+        else: ref[i] = a.blocks[0][:r]
+    me = vlib.VERIF + '/build/model/fmt_engine'
+    for var in ('O1', 'noslack'):
+        consts = constsd[var]; slack = bool(consts['null_slack']); rmax = consts['rmax_str']
+        cases = []; mlines = []; k = 0
+        for i, (cls, fmt, args, ds) in enumerate(formats):
+            text = ref.get(i); L = len(text) if text is not None else 8
+            funcs = ['x:snprintf_s'] + [rng.choice(['x:sprintf_s', 'x:vsprintf_s', 'x:vsnprintf_s'])]
+            if var == 'noslack': funcs = funcs[:1] if i % 3 else funcs
+            if cls == 'grid-float':
+                if var == 'noslack': continue
+                funcs = funcs[:1]
+            for func in funcs:
+                dms = sorted(set([L + 1, L + 12] + ([1, max(L - 1, 1), max(L, 1), L + 2] if (i % 4 == 0 or cls == 'invalid') else [])))
+                if var == 'noslack': dms = [rng.choice(dms)]
+                if cls == 'grid-float': dms = [L + 12]
+                for dmax in dms:
+                    k += 1; c = c11_case('%s_%d' % (var, k), func, fmt, args, dmax, rng); c.id = 'f%s_%d' % (var, k)
+                    c.meta = dict(cls=cls, i=i, func=func[2:], dmax=dmax, fmt=fmt.decode('latin1'), kind='buffer', convs=''.join(d.conv for d in ds), floats=any(d.conv in 'fFeEgGaA' for d in ds), wide=any(d.length == 'l' and d.conv in 'cs' for d in ds), ds=ds)
+                    cases.append(c)
+                    mlines.append(c11_model_line(c.id, 'vsprintf_s' if func == 'x:vsprintf_s' else 'vsnprintf_s', slack, rmax, c.blocks[0][1], fmt, args))
+            if var == 'O1' and cls != 'grid-float' and (i % 5 == 0 or cls == 'invalid'):
+                func = rng.choice(['x:fprintf_s', 'x:vfprintf_s', 'x:printf_s'])
+                k += 1; c = c11_case(0, func, fmt, args, 1, rng); c.id = 'f%s_%d' % (var, k)
+                c.meta = dict(cls=cls, i=i, func=func[2:], dmax=None, fmt=fmt.decode('latin1'), kind='stream', convs=''.join(d.conv for d in ds), floats=any(d.conv in 'fFeEgGaA' for d in ds), wide=any(d.length == 'l' and d.conv in 'cs' for d in ds), ds=ds)
+                cases.append(c); mlines.append(c11_model_line(c.id, 'stream', slack, rmax, b'', fmt, args))
+        cf = '%s/cases_c11_%s.txt' % (scr.dir, var)
+        with open(cf, 'w') as f:
+            for c in cases: f.write(c.line() + '\n')
+        oi = vlib.run_impl(impls[var], cf, cases, locale='C.UTF-8')
+        # the same calls in the opposite order: the text must not depend on earlier calls
+        rcases = list(reversed(cases))
+        cfr = '%s/cases_c11_%s_rev.txt' % (scr.dir, var)
+        with open(cfr, 'w') as f:
+            for c in rcases: f.write(c.line() + '\n')
+        oir = vlib.run_impl(impls[var], cfr, rcases, locale='C.UTF-8')
+        p = subprocess.run([me], input='\n'.join(mlines) + '\n', capture_output=True, text=True, timeout=900)
+        om = {}
+        for l in p.stdout.split('\n'):
+            f = l.split()
+            if f: om[f[0]] = dict(x.split('=', 1) for x in f[1:])
+        for c in cases:
+            a = oi.get(c.id); m = c.meta; text = ref.get(m['i']); b = om.get(c.id)
+            rep.evals += 1; rep.count('%s/%s/%s/%s' % (m['func'], m['cls'], 'floats' if m['floats'] else ('wide' if m['wide'] else 'int-char-str'), var))
+            if a is None: continue
+            fails = []
+            if a.fault != '-': fails.append(('fault', 'faulted at %s' % a.fault))
+            else:
+                r = int(a.ret)
+                ar = oir.get(c.id)
+                if ar is not None and (ar.ret, ar.blocks[0] if m['kind'] == 'buffer' else ar.raw.split(' out=')[-1]) != (a.ret, a.blocks[0] if m['kind'] == 'buffer' else a.raw.split(' out=')[-1]):
+                    fails.append(('order-dependent', 'the result depends on the calls made before it'))
+                if m['kind'] == 'buffer':
+                    dest = a.blocks[0]; dmax = m['dmax']
+                    stored = dest[:dest.index(0)] if 0 in dest else None
+                    rep.nontrivial.add((m['func'], m['convs'], r < 0, var))
+                    if r >= 0:
+                        if stored is None: fails.append(('unterminated', 'non-negative return but dest is not terminated'))
+                        else:
+                            if text is None: fails.append(('invalid-accepted', 'an invalid directive or argument was accepted (returned %d, "%s")' % (r, stored.decode('latin1'))))
+                            else:
+                                if r != len(stored): fails.append(('count-wrong', 'returned %d but %d characters are stored' % (r, len(stored))))
+                                if stored != text:
+                                    if m['floats'] and len(stored) == len(text) and c11_float_ok(None, stored, text): rep.count('float within one unit of the last digit')
+                                    elif len(text) >= dmax: fails.append(('nofit-success', 'the text needs %d characters, dmax is %d, but the call returned %d with "%s"' % (len(text), dmax, r, stored.decode('latin1')[:60])))
+                                    else: fails.append(('text-differs', 'stored "%s", C printf gives "%s"' % (stored.decode('latin1')[:80], text.decode('latin1')[:80])))
+                    else:
+                        if text is not None and len(text) < dmax: fails.append(('fits-but-failed', 'the text "%s" (%d characters) fits dmax %d but the call returned %d' % (text.decode('latin1')[:60], len(text), dmax, r)))
+                else:
+                    out = a.raw.split(' out=')[-1].strip(); out = b'' if out == '-' else bytes.fromhex(out)
+                    rep.nontrivial.add((m['func'], m['convs'], r < 0, 'stream'))
+                    if r >= 0:
+                        if text is None: fails.append(('invalid-accepted', 'an invalid directive or argument was accepted by the stream variant (returned %d)' % r))
+                        elif out != text:
+                            if m['floats'] and len(out) == len(text) and c11_float_ok(None, out, text): rep.count('float within one unit of the last digit')
+                            else: fails.append(('stream-differs', 'the stream received "%s", C printf gives "%s"' % (out.decode('latin1')[:80], text.decode('latin1')[:80])))
+                        elif r != len(out): fails.append(('count-wrong', 'returned %d but %d characters were written' % (r, len(out))))
+                    elif text is not None: fails.append(('fits-but-failed', 'stream variant returned %d for a valid call' % r))
+            for kind, t in fails:
+                c.meta['text'] = text
+                kid = known.classify(rep, c, a, kind, var, consts)
+                if os.environ.get('VERIF_C11_DUMP'):
+                    with open(os.environ['VERIF_C11_DUMP'], 'a') as df: df.write('%s\t%s\t%s\t%s\t%s\t%s\t%s\n' % (kid, kind, m['func'], m['fmt'], m['dmax'], var, t))
+                if kid: rep.known_hits[kid] = rep.known_hits.get(kid, 0) + 1
+                else: rep.violation('%s("%s", dmax %s; %s): %s' % (m['func'], m['fmt'], m['dmax'], var, t), {'key': (kind, m['convs'][:1], m['kind']), 'property': 'C11', 'function': m['func'], 'format': m['fmt'], 'failure': kind,
+                                    'case': c.to_json(), 'case_line': c.line(), 'impl_outcome': a.raw[:600], 'c_printf': text.decode('latin1') if text is not None else None, 'what': t})
+            # correspondence with the engine model
+            if b is not None and b.get('known') == '1' and a.fault == '-':
+                if m['kind'] == 'buffer':
+                    hs = ','.join(str(h[1]) for h in a.handlers) or '-'
+                    mine = (a.ret, a.blocks[0].hex() if a.blocks[0] else '-', hs)
+                    theirs = (b['ret'], b['dest'], b['h'])
+                else:
+                    out = a.raw.split(' out=')[-1].strip()
+                    mine = (a.ret, out) if int(a.ret) >= 0 else (a.ret,)
+                    theirs = (b['ret'], b['out']) if int(b['ret']) >= 0 else (b['ret'],)
+                rep.count('model-compared/%s' % var)
+                if mine != theirs: rep.mismatches.append((c, a, vlib.Outcome('%s ret=%s model=%s' % (c.id, b['ret'], ';'.join('%s:%s' % kv for kv in sorted(b.items())))), var))
+    report_proofs(rep, pr, 'C11')
+    report_mismatches(rep, 'T1 (printf engine model vs implementation)')
+    rep.trusted = TRUSTED_COMMON + ['reference: the C library\'s own snprintf, called in the driver process with the same arguments (libffi builds the variadic call)',
+                                    'the engine model (FmtEngine.v) is a transcription of safec_vsnprintf_s for literal, %%, integer, %c and %s directives; floating conversions, %lc/%ls and %p are compared with the reference only',
+                                    'floating conversions: equal text, or same layout and every number within one unit of its last printed digit (Python decimal)']
+    return rep.finish('formats from the directive grammar (flags x width x precision x length x conversion, 0..4 directives with literal text, * width/precision incl. negative), argument values incl. 0, -1, type minima/maxima, +-0.0, denormals, the 1e9 boundary, 1e300, inf, nan, rounding roll-over values, empty/long/multibyte strings, wide characters and strings; dmax from 1 to beyond the needed size; the four buffer entry points and the four stream entry points; every call also replayed in the opposite order',
+                      'make -C /verif/coq Properties_C11.vo + harness/check.py C11')
+REGISTRY['C11'] = check_C11
